@@ -449,6 +449,12 @@ func (e *explorer) goTest(hist []uint8, last Call) string {
 	return b.String()
 }
 
+// seqWorkers bounds the goroutines that replay histories of the sequential part
+// side by side (0: one per processor). Parallel replay takes for granted that
+// identity managers share no state; main sets 1 when the instances part, which
+// decides that, has reported anything.
+var seqWorkers = 0
+
 type seqState struct {
 	hist []uint8
 	key  stateKey
@@ -557,6 +563,10 @@ func runSequential(tier string, depth int, rep *kf.Reporter, deadline time.Time)
 		nworkers  = runtime.GOMAXPROCS(0)
 		violating = 0
 	)
+
+	if seqWorkers > 0 {
+		nworkers = seqWorkers
+	}
 
 	const batch = 2048
 
